@@ -71,6 +71,19 @@ def run(ctx: Any, prog: Program) -> None:
                     sites.append((n, n.left))
                 if isinstance(n, ast.Call) and isinstance(n.func, ast.Attribute) and n.func.attr in ('get', 'pop') and dotted(n.func.value) == f'self.{index}' and n.args:
                     sites.append((n, n.args[0]))
+            if not sites and mname in ('_get_file', '_file_exists'):
+                # the answer has to come from the folded index: the wrapped archive object matches names by its own (case-sensitive / differently
+                # split) rules
+                other = [n for n in walk_no_nested(fn) if (isinstance(n, ast.Compare) and isinstance(n.ops[0], (ast.In, ast.NotIn)) and (dotted(n.comparators[0]) or '').startswith('self.'))
+                         or (isinstance(n, ast.Subscript) and (dotted(n.value) or '').startswith('self.') and dotted(n.value) != f'self.{index}')]
+                delegates = [c for c in walk_no_nested(fn) if isinstance(c, ast.Call) and dotted(c.func) in ('self._get_file', 'self._file_exists') and dotted(c.func) != f'self.{mname}']
+                if delegates:
+                    ctx.check('C19.H1', True, fs, delegates[0], f'{cls}.{mname} delegates to {dotted(delegates[0].func)}', func=f'{cls}.{mname}', text=f'{cls}.{mname} lookup key form')
+                elif other:
+                    ctx.check('C19.H1', False, fs, other[0], f'{cls}.{mname} answers from `{ast.unparse(other[0])[:70]}` instead of the folded index self.{index}: the wrapped container compares names by its own rules, '
+                              'so spellings differing in case (or slash style) stop resolving alike across the backends', func=f'{cls}.{mname}', text=f'{cls}.{mname} lookup key form')
+                else:
+                    ctx.shape('C19.H1', False, fs, fn, f'{cls}.{mname} does not consult self.{index}', func=f'{cls}.{mname}', text=f'{cls}.{mname} lookup key form')
             for node, kexpr in sites:
                 form = env.form(kexpr)
                 ok = FOLDED in form and SLASHED in form and (('CLEAN' in form) == clean)
@@ -192,6 +205,27 @@ def run(ctx: Any, prog: Program) -> None:
                   func='FileSystemChain.add_sys', text='priority insertion')
     else:
         ctx.shape('C19.H4', False, fs, ads, 'insert/append pair not recognised', func='FileSystemChain.add_sys', text='priority insertion')
+    # the subfolder is handed to the members as the caller spelled it: the directory backend resolves exact-case names only, so a prefix
+    # re-spelled (case-folded) at registration makes a `Materials` folder on disk unreachable
+    from engine.forms import FormEnv as _FE, FOLDED as _FOLDED
+    aenv = _FE(ads, param_forms={})
+    stored_prefixes = [c.args[-1].elts[1] for c in inserts + appends if c.args and isinstance(c.args[-1], ast.Tuple) and len(c.args[-1].elts) == 2]
+    ctx.shape('C19.H4', len(stored_prefixes) == len(inserts) + len(appends) and bool(stored_prefixes), fs, ads, 'add_sys stores (system, prefix) pairs', func='FileSystemChain.add_sys', text='prefix stored as given')
+    prefix_folded_at_store = False
+    for sp_ in stored_prefixes:
+        def may_fold(e_: ast.AST, seen_: frozenset = frozenset()) -> bool:
+            if any(isinstance(x, ast.Call) and isinstance(x.func, ast.Attribute) and x.func.attr in ('casefold', 'lower', 'upper') for x in ast.walk(e_)):
+                return True
+            for x in ast.walk(e_):
+                if isinstance(x, ast.Name) and x.id not in seen_:
+                    for a_ in ast.walk(ads):
+                        if isinstance(a_, ast.Assign) and any(isinstance(t, ast.Name) and t.id == x.id for t in a_.targets) and may_fold(a_.value, seen_ | {x.id}):
+                            return True
+            return False
+        folded_ = _FOLDED in aenv.form(sp_) or may_fold(sp_)
+        prefix_folded_at_store |= folded_
+        ctx.check('C19.H4', not folded_, fs, sp_, f'add_sys stores the member subfolder case-folded (`{ast.unparse(sp_)[:60]}`): lookups join it in front of the name, and the directory filesystem only finds '
+                  'exact-case names, so a member restricted to `Materials` no longer yields anything', func='FileSystemChain.add_sys', text='prefix stored as given')
     wr = ch['walk_folder_repeat']
     src = ast.unparse(wr)
     ctx.shape('C19.H4', 'os.path.join(prefix, folder)' in src, fs, wr, 'walk must address a prefixed member inside its prefix', func='FileSystemChain.walk_folder_repeat', text='prefix joined on walk')
@@ -211,6 +245,8 @@ def run(ctx: Any, prog: Program) -> None:
 
     def folds(e: ast.AST, depth: int = 0) -> int:
         n_ = ast.unparse(e).count('casefold()')
+        if prefix_folded_at_store and depth == 0:
+            n_ += sum(1 for x in ast.walk(e) if isinstance(x, ast.Name) and x.id == 'prefix')
         if depth < 4:
             for x in ast.walk(e):
                 if isinstance(x, ast.Name) and x.id in pref_defs:
@@ -264,6 +300,9 @@ def run(ctx: Any, prog: Program) -> None:
 
 
 MUTANTS = [
+    {'id': 'vpk_exists_asks_archive', 'file': 'filesys.py', 'find': "        return name.casefold().replace('\\\\', '/') in self._name_to_file\n", 'replace': "        return name.casefold().replace('\\\\', '/') in self.vpk\n", 'expect': 'C19.H1'},
+    {'id': 'add_sys_folds_prefix', 'file': 'filesys.py', 'find': "        if priority:\n            self.systems.insert(0, (sys, prefix))", 'replace': "        prefix = prefix.casefold()\n        if priority:\n            self.systems.insert(0, (sys, prefix))", 'expect': 'C19.H4'},
+    {'id': 'ok_add_sys_normalises_slashes', 'file': 'filesys.py', 'find': "        if priority:\n            self.systems.insert(0, (sys, prefix))", 'replace': "        prefix = prefix.replace('\\\\', '/')\n        if priority:\n            self.systems.insert(0, (sys, prefix))", 'expect': None},
     {'id': 'chain_walk_strips_prefix_with_relpath', 'file': 'filesys.py', 'find': "                if norm_prefix and start.casefold() == norm_prefix.casefold() + '/':\n                    rel_path = path[len(start):]\n                else:\n                    rel_path = os.path.relpath(path, prefix).replace('\\\\', '/')\n", 'replace': "                rel_path = os.path.relpath(path, prefix).replace('\\\\', '/')\n", 'expect': 'C19.H4'},
     {'id': 'chain_prefix_glued_with_slash', 'file': 'filesys.py', 'find': "            full_name = os.path.join(prefix, name).replace('\\\\', '/')", 'replace': "            full_name = (f'{prefix}/{name}' if prefix else name).replace('\\\\', '/')", 'expect': 'C19.H4'},
     {'id': 'chain_exists_carries_prefix', 'file': 'filesys.py', 'find': "    def _get_file(self, name: str) -> File[Self]:\n        \"\"\"Search for a file on each filesystem in turn.\"\"\"", 'replace': "    def _file_exists(self, name: str) -> bool:\n        for sys, prefix in self.systems:\n            if prefix:\n                name = os.path.join(prefix, name).replace('\\\\', '/')\n            if sys._file_exists(name):\n                return True\n        return False\n\n    def _get_file(self, name: str) -> File[Self]:\n        \"\"\"Search for a file on each filesystem in turn.\"\"\"", 'expect': 'C19.H4'},
